@@ -25,27 +25,27 @@ CHECKS = {
     'C03': dict(
         engine='opsim', level='exploration', design_ref='DESIGN.md 3',
         technique='deterministic simulation with fault injection: seeded call/scribble/mutate/failed-call/injected-MemoryError/parallel-call histories on one long-lived compiled function, System or Basis, checked against pristine snapshots of an independent compile',
-        text='Seeded search over call histories of one long-lived compiled function (and of solver.System and function.Basis objects): calls with re-used, mutated-in-place, fresh, read-only, non-contiguous and integer-typed argument sets, poison written over every writable array handed out earlier, malformed calls that must raise, MemoryError injected at the n-th line of the running generated script (also in the middle of the first run), the same call executed in parallel under the process simulator. Every call is compared with the snapshot taken in pristine state from a separate compile without constant caching (cross-checked against the unsimplified, unoptimised evaluation), and argument arrays are compared byte for byte before and after. Sampled: evidence, not proof.',
+        text='Seeded search over call histories of one long-lived compiled function (and of solver.System and function.Basis objects): calls with re-used, mutated-in-place, fresh, read-only, non-contiguous and integer-typed argument sets, poison written over every writable array handed out earlier, malformed calls that must raise, MemoryError injected at the n-th line of the running generated script (also in the middle of the first run), the same call executed in parallel under the process simulator (optionally itself hit by an injected kill / fork failure / allocation failure, also as the first run); values owned by library objects (transform items) handed out through views; histories inside the library's own long-lived compiled functions (Topology.locate: points located together vs each alone; trim: whole topology vs per element). Every call is compared with the snapshot taken in pristine state from a separate compile without constant caching (cross-checked against the unsimplified, unoptimised evaluation), and argument arrays are compared byte for byte before and after. Sampled: evidence, not proof.',
         note='Trusts NumPy; arrays that alias an argument array are not scribbled; exported matrix storage (Matrix.export) is not treated as a result of the compiled function; programs come from fixed template families, not an open-ended expression fuzzer.'),
     'C14': dict(
         engine='opsim', level='exploration', design_ref='DESIGN.md 4',
         technique='deterministic simulation with fault injection: seeded solve histories on one matrix / System through a fault-injecting numerical back end at the matrix.backend() plug-in seam, every returned vector certified by an independent dense NumPy recomputation',
-        text='Seeded search over histories of solves on one matrix object (changing constraints boolean/NaN-float/row, right-hand sides incl. several at once, lhs0, tolerances, solvers, preconditioners) and on one solver.System (all methods, step sequences with bisection retry, solve_constraints, legacy wrappers) while a fault injector behind the real NumpyMatrix makes the back end return inexact, non-finite, huge or stagnating results or raise. Every returned vector is certified with plain NumPy (constraints bit-exact, finiteness, residual within the requested tolerance plus rounding slack), every exception must be a matrix or solver error. Eight genuine defects found this way were repaired in /repo (fix: commits, listed in known_findings.json).',
-        note='Trusts NumPy/LAPACK for the dense oracle; with atol=rtol=0 only finiteness/constraints (and, for an honest back end and non-singular matrices, a small backward error) are checked; only the numpy back end exists in this sandbox; truncated Krylov with a diagonal preconditioner is not generated (converges too slowly to run, not a violation).'),
+        text='Seeded search over histories of solves on one matrix object (changing constraints boolean/NaN-float/row, right-hand sides incl. several at once, lhs0, tolerances, solvers, preconditioners) and on one solver.System (all methods, step sequences with bisection retry, solve_constraints, legacy wrappers) while a fault injector behind the real NumpyMatrix makes the back end return inexact, non-finite, huge or stagnating results or raise. Every returned vector is certified with plain NumPy (constraints bit-exact, finiteness, residual within the requested tolerance plus rounding slack), every exception must be a matrix or solver error. Topology.project histories chain the returned constraint vector into the next call (and exact_boundaries) and are certified stage by stage with dense free normal equations. Ten genuine defects found this way were repaired in /repo (fix: commits, listed in known_findings.json); one more is recorded as a known finding.',
+        note='Trusts NumPy/LAPACK for the dense oracle; with atol=rtol=0 only finiteness/constraints (and, for an honest back end and non-singular matrices, a small backward error) are checked; only the numpy back end exists in this sandbox; truncated Krylov with a diagonal preconditioner is not generated (converges too slowly to run, not a violation); known finding C14-arnoldi-without-tolerance-returns-stagnated-iterate (narrow class, see known_findings.json).'),
     'C16': dict(
         engine='procsim', level='exploration', design_ref='DESIGN.md 5',
-        technique='deterministic simulation with fault injection: seeded baton scheduler over real forked worker processes, kill/raise/fork/alloc faults, happens-before race detection, serial-equivalence oracle',
+        technique='deterministic simulation with fault injection: seeded baton scheduler over real forked worker processes, kill/raise/fork/alloc/lost-exit-status faults, happens-before race detection, serial-equivalence oracle',
         text='Seeded search over schedules and fault sequences of the real parallel code (nutils.parallel, generated scripts, Topology._locate) running in real forked processes whose interleaving is decided by the simulator at lock/counter/line granularity. Checks exactly-once iteration claims, mutual exclusion of shared writes (vector-clock happens-before over the recorded history), equality with the serial run, raise-instead-of-partial-result after any injected fault and bounded liveness. Sampled: a clean batch is evidence, not proof.',
         note='Trusts kernel fork/mmap/pipe/SIGKILL semantics and the fidelity of the lock stub to a POSIX semaphore; no CPU-level or bytecode-level pre-emption (races are detected by happens-before, not by manifestation); one known finding (kill while holding a lock deadlocks) is listed in known_findings.json.'),
     'C17': dict(
         engine='opsim', level='exploration', design_ref='DESIGN.md 7',
         technique='deterministic simulation with fault injection: seeded build/drop/gc/allocator-churn/pickle histories over pools of near-miss values with invariants after every step, plus child interpreters under other PYTHONHASHSEED',
-        text='Decides the history- and configuration-dependent clauses: a value keeps its nutils hash however, whenever and wherever it is built (construction routes, pickle round trip, other interpreter and hash seed, whatever else is alive or has been collected), structurally equal interned values are one object while either lives, different values are never one object, and the buffer-keyed lru_cache stays correct when buffers are freed and their addresses re-used. Injectivity is evaluated on every pair a case holds (pools contain generated near misses) but no adversarial pair search is claimed.',
+        text='Decides the history- and configuration-dependent clauses: a value keeps its nutils hash however, whenever and wherever it is built (construction routes, pickle round trip, other interpreter and hash seed, whatever else is alive or has been collected), structurally equal interned values are one object while either lives, different values are never one object, and the buffer-keyed lru_cache stays correct when buffers are freed and their addresses re-used. Injectivity is evaluated on every pair a case holds (pools contain generated near misses) but no adversarial pair search is claimed. Known finding C17-python-equal-values-conflated (0.0 / -0.0 alias in intern tables and in frozendict.__eq__).',
         note='Trusts CPython GC/weakref semantics and SHA-1; mixed numeric argument types that compare equal (1/True/1.0) are outside the listed routes and not generated; topologies themselves are not nutils-hashable on this commit and enter through their sequences, samples and integrals.'),
     'C18': dict(
         engine='procsim', level='fault_enumeration', design_ref='DESIGN.md 6',
         technique='deterministic simulation with fault injection: seeded epochs of real forked caller processes under the baton scheduler on an instrumented file layer (torn writes, kills at file operations, ENOSPC/EIO, pre-existing partial entries), plus complete enumeration of kill offsets within recorded entry writes',
-        text='History mode: 1-4 epochs of 1-3 real caller processes (fresh per epoch: only the cache directory survives) run memoised calls and partial iterations of resumable recursions through the real nutils.cache code; the simulator decides the interleaving at every file operation / flock / function entry and injects kills in the middle of a write, kills at chosen operations, raising functions, abandoned iterations, ENOSPC/EIO and truncated/empty/old-format entries. Oracles: value and replayed log equal the uncached call, resume() starts from the right history, one process at a time inside the wrapped function per entry, progress. Enumeration mode: for entries recorded from a fault-free run EVERY byte offset at which the write can be cut is reconstructed and the call repeated twice (complete over that dimension for entries up to 4000 bytes); histories, schedules and payloads remain sampled.',
+        text='History mode: 1-4 epochs of 1-3 real caller processes (fresh per epoch: only the cache directory survives) run memoised calls and partial iterations of resumable recursions through the real nutils.cache code; the simulator decides the interleaving at every file operation / flock / function entry and injects kills in the middle of a write, kills at chosen operations, raising functions, abandoned iterations, ENOSPC/EIO and truncated/empty/old-format entries. Workloads include array arguments in near-collision variants (memory order, transposes, element width, strides), two iterators over one recursion alive in one consumer, iterators left suspended. Oracles: value and replayed log equal the uncached call, resume() starts from the right history, one process at a time inside the wrapped function per entry, progress. Enumeration mode: for entries recorded from a fault-free run EVERY byte offset at which the write can be cut is reconstructed and the call repeated twice (complete over that dimension for entries up to 4000 bytes); histories, schedules and payloads remain sampled.',
         note='"killed" = SIGKILL of the process (completed writes survive); power loss is outside the statement; flock stub has kernel semantics (released on close and death); wrapped functions are deterministic, entries byte-stable across processes.'),
 }
 PLANNED = ('C03', 'C14', 'C16', 'C17', 'C18')
